@@ -1901,9 +1901,14 @@ func runC18(ctx *Ctx) *Result {
 	if ctx.Replay != "" {
 		var probe struct {
 			G3 *G3Case `json:"g3"`
+			O3 *O3Case `json:"o3"`
 		}
 		if err := ReadReplay(ctx.Replay, &probe); err == nil && probe.G3 != nil {
 			runCisco3(ctx, res, drv)
+			return res
+		}
+		if probe.O3 != nil {
+			runOther3(ctx, res, drv, genName)
 			return res
 		}
 		var c Case
@@ -1918,6 +1923,10 @@ func runC18(ctx *Ctx) *Result {
 		runCase(c)
 		return res
 	}
+	if os.Getenv("VERIF_C18_ONLY") == "o3" { // development aid: only the streams of other3.go
+		runOther3(ctx, res, drv, genName)
+		return res
+	}
 	for _, c := range corpus() {
 		runCase(c)
 	}
@@ -1930,6 +1939,7 @@ func runC18(ctx *Ctx) *Result {
 		}
 	}
 	runCisco3(ctx, res, drv)
+	runOther3(ctx, res, drv, genName)
 	if ctx.Thorough() {
 		for _, d := range []string{"asa", "ios", "linux", "panos"} {
 			exhaustive(d, runCase)
